@@ -28,6 +28,9 @@ CLAIMED = {
  "C07": ("F", "DESIGN.md §7 C07, §3.2",
    "Seeded exploration (engine F): tonic::codec::Streaming is driven poll by poll over simulated bodies carrying mutated/random byte strings in arbitrary chunkings, with injected Pending, body errors of several types, trailers and a silent peer; an independent sequential framing parser is the reference; the stream is polled past its first terminal event. A clean batch is evidence, not proof.",
    "Trusted: the harness's independent frame parser and flate2 write::*/zstd bulk decoders; body scripts are conformant HTTP bodies (nothing after trailers)."),
+ "C09": ("N+F", "DESIGN.md §7 C09, §3.3",
+   "Seeded exploration in virtual time (engine N): real tonic Server (Server::timeout) and Channel (Endpoint::timeout) with Request::set_timeout over the simulated network on tokio's paused clock; handler latency on a grid around D = min of the configured deadlines; oracle: the true response below D-g, CANCELLED 'Timeout expired' with elapsed in [D, D+g] above D+g, either inside the band (g = 2 ms). Engine F: the grpc-timeout value a foreign peer receives (<= 8 digits + unit, never longer, loses < 1 unit) for durations biased to unit boundaries up to 99999999 h; the server parser through hook H2 on every unit x digit-count structure (enumerated) and malformed strings.",
+   "Guard band 2 ms (tokio timer wheel granularity); the grammar clauses are pure functions and are sampled structurally, not decided. Hooks: H1 (no wall-clock date header), H2 (parser wrapper)."),
  "C16": ("F", "DESIGN.md §7 C16",
    "Seeded exploration (engine F): the real GrpcWebLayer wraps a scripted inner service; grpc-web requests (binary or one base64 string) are cut at arbitrary positions incl. inside a 4-char quantum; inner gRPC responses (frames cut anywhere, arbitrary trailers incl. repeated names/obs-text, or trailers-only) are translated for Accept binary/text/absent/other; an independent grpc-web decoder checks identical message bytes + exactly one final 0x80 trailers frame listing every trailer; the (method, version, content-type) cases are checked for 405/400/pass-through-unchanged.",
    "The layer is driven as a tower::Service (no HTTP server around it)."),
@@ -76,11 +79,12 @@ man = {
    "guard": "cargo feature `verif-hooks` of crate tonic (off by default)",
    "enable": "harness depends on tonic = { path = \"/repo/tonic\", features = [\"verif-hooks\", ...] }; harness build also uses RUSTFLAGS --cfg tokio_unstable (harness only, not a source change)",
    "baseline_off_cmd": "cd /repo && cargo nextest run --workspace --no-fail-fast --offline || cargo test --workspace --no-fail-fast --offline",
-   "source_commits": [],
+   "source_commits": ["f73bdaa8", "ef6a77ec"],
    "add_only": True,
  },
  "engines": [
    {"name": "F", "path": "/verif/sim/tsim", "serves_properties": sorted([p for p,(e,_,_,_) in CLAIMED.items() if "F" in e]), "kind_free_text": "frame-level deterministic simulator: own executor, scripted HTTP bodies / message sources / peers, no runtime, no HTTP/2"},
+   {"name": "N", "path": "/verif/sim/simnet + /verif/sim/tsim", "serves_properties": sorted([p for p,(e,_,_,_) in CLAIMED.items() if "N" in e]), "kind_free_text": "net-level deterministic simulator: real tonic/hyper/h2 on a tokio current-thread runtime with paused clock and seeded select!, simulated byte network, scripted connector/listener/peers"},
  ],
  "checks": checks,
  "not_applicable": [{"property_id": k, "reason": v} for k, v in sorted({**NA, **PENDING}.items())],
